@@ -35,7 +35,12 @@ def binz_arm(arm, reward):
     return 1 if reward >= (3 if arm == 1 else 6) else 0
 
 
-BINARIZERS = {'binz': binz, 'binz_arm': binz_arm}
+def binz_one(arm, reward):
+    """success when the reward is at least 1 (the identity on 0 / 1 values)"""
+    return 1 if reward >= 1 else 0
+
+
+BINARIZERS = {'binz': binz, 'binz_arm': binz_arm, 'binz_one': binz_one}
 
 
 def make_lp(spec):
